@@ -3,6 +3,8 @@ import DnpProofs.Lemmas.Slice
 import DnpProofs.Lemmas.SliceBounds
 import DnpProofs.Lemmas.Cut
 import DnpProofs.Lemmas.ListAux
+import Mathlib.Algebra.Order.Field.Basic
+import Mathlib.Algebra.Order.Ring.Abs
 set_option linter.unusedSectionVars false
 /-!
 # C05 — indexing by position, coordinate value or range selects the right block
@@ -357,5 +359,82 @@ example : ([0, 1/2, 1, 3] : List ℚ).Pairwise (· < ·) ∧ beyondEnd ltB (5 : 
 example : ([3, 1, 1/2, 0] : List ℚ).Pairwise (· > ·) ∧ beyondEnd ltB (-2 : ℚ) [3, 1, 1/2, 0] = true ∧
     (∀ x y : ℚ, y < x → -2 < y → |-2 - y| < |-2 - x|) :=
   ⟨by decide +kernel, by decide +kernel, (abs_dist_shapes (-2)).2⟩
+
+/-! ### the unit of an axis does not matter -/
+section scale
+variable {K : Type} [Field K] [LinearOrder K] [IsStrictOrderedRing K] [Inhabited K]
+
+/-- the distance the code uses: |t − x| -/
+def absDist (a b : K) : K := |a - b|
+
+/-- scaling a list by a positive factor does not move its first minimum -/
+theorem argBest_go_scale (s : K) (hs : 0 < s) : ∀ (ys : List K) (best : K) (bi i : Nat),
+    argBest.go ltB (s * best) bi i (ys.map (s * ·)) = argBest.go ltB best bi i ys
+  | [], _, _, _ => rfl
+  | y :: ys, best, bi, i => by
+    simp only [List.map_cons, argBest.go, ltB]
+    have : (s * y < s * best) ↔ (y < best) := mul_lt_mul_iff_right₀ hs
+    by_cases h : y < best
+    · simp only [h, this.2 h, decide_true, if_true]
+      exact argBest_go_scale s hs ys y i (i + 1)
+    · have h' : ¬ s * y < s * best := fun hh => h (this.1 hh)
+      simp only [h, h', decide_false, Bool.false_eq_true, if_false]
+      exact argBest_go_scale s hs ys best bi (i + 1)
+
+theorem argBest_scale (s : K) (hs : 0 < s) (l : List K) : argBest ltB (l.map (s * ·)) = argBest ltB l := by
+  cases l with
+  | nil => rfl
+  | cons x xs => simp only [List.map_cons, argBest]; exact argBest_go_scale s hs xs x 0 1
+
+/-- the nearest position does not depend on the unit of the axis -/
+theorem nearest_scale (s : K) (hs : 0 < s) (t : K) (c : List K) :
+    nearest absDist ltB (s * t) (c.map (s * ·)) = nearest absDist ltB t c := by
+  unfold nearest
+  have : (c.map (s * ·)).map (fun x => absDist (s * t) x) = (c.map (fun x => absDist t x)).map (s * ·) := by
+    simp only [List.map_map]
+    apply List.map_congr_left
+    intro x _
+    simp only [Function.comp, absDist, ← mul_sub, abs_mul, abs_of_pos hs]
+  rw [this, argBest_scale s hs]
+
+def scaleSel (s : K) : Sel K → Sel K
+  | .int i => .int i
+  | .flt t => .flt (s * t)
+  | .tup1 t => .tup1 (s * t)
+  | .range lo hi => .range (s * lo) (s * hi)
+  | .slice a b st => .slice a b st
+
+theorem beyondEnd_scale (s : K) (hs : 0 < s) (hi : K) (c : List K) (hne : c ≠ []) :
+    beyondEnd ltB (s * hi) (c.map (s * ·)) = beyondEnd ltB hi c := by
+  obtain ⟨x, xs, rfl⟩ := List.exists_cons_of_ne_nil hne
+  have hl : ((x :: xs).map (s * ·)).getLast?.getD default = s * ((x :: xs).getLast?.getD default) := by
+    rw [List.getLast?_map]
+    cases h : (x :: xs).getLast? with
+    | none => simp at h
+    | some v => simp
+  unfold beyondEnd
+  simp only []
+  rw [hl]
+  simp only [List.map_cons, List.headD_cons, ltB, mul_lt_mul_iff_right₀ hs]
+  first | rfl | (split <;> split <;> simp_all)
+
+/-- **unit independence of indexing**: the same axis and the same selector expressed in another unit (everything times a
+    positive factor) select the same slice — float, 1-tuple, (lo, hi) pairs, integers and slices, ascending, descending or
+    unordered axes -/
+theorem selToSlice_scale (s : K) (hs : 0 < s) (c : List K) (hne : c ≠ []) (sel : Sel K) :
+    selToSlice absDist ltB (c.map (s * ·)) (scaleSel s sel) = selToSlice absDist ltB c sel := by
+  cases sel with
+  | int i => rfl
+  | flt t => simp only [scaleSel, selToSlice, nearest_scale s hs]
+  | tup1 t => simp only [scaleSel, selToSlice, nearest_scale s hs]
+  | range lo hi => simp only [scaleSel, selToSlice, nearest_scale s hs, beyondEnd_scale s hs hi c hne]
+  | slice a b st => rfl
+
+theorem selPositions_scale (s : K) (hs : 0 < s) (c : List K) (hne : c ≠ []) (sel : Sel K) :
+    selPositions absDist ltB (c.map (s * ·)) (scaleSel s sel) = selPositions absDist ltB c sel := by
+  unfold selPositions
+  rw [selToSlice_scale s hs c hne, List.length_map]
+
+end scale
 
 end Dnp.C05
